@@ -127,7 +127,7 @@ func (c *Ctx) bytesToString(s *State, sl SliceV) Value {
 	arr := c.fresh("strsrc", sA1)
 	s.assume(eq(arr, sel(m, sl.Ref)))
 	s.assume(eq(app("gs.len", r), sl.Len))
-	s.assume(forall([]string{"k"}, "(! "+implies(and(le("0", "k"), lt("k", sl.Len)), eq(app("gs.at", r, "k"), sel(arr, add(sl.Off, "k"))))+" :pattern ((gs.at "+r+" k)))"))
+	s.assume(forall([]string{"k"}, "(! "+implies(and(le("0", "k"), lt("k", sl.Len)), eq(app("gs.at", r, "k"), sel(arr, c.elemIndex(sl.Off, "k"))))+" :pattern ((gs.at "+r+" k)))"))
 	return IntV{r}
 }
 
@@ -286,7 +286,7 @@ func (c *Ctx) evalAppend(x *ast.CallExpr, s *State) Value {
 		old := sel(m, base.Ref)
 		arr := c.fresh("apparr", sA1)
 		// prefix copied
-		s.assume(forall([]string{"k"}, "(! "+implies(and(le("0", "k"), lt("k", base.Len)), eq(sel(arr, "k"), sel(old, add(base.Off, "k"))))+" :pattern ((select "+arr+" k)))"))
+		s.assume(forall([]string{"k"}, "(! "+implies(and(le("0", "k"), lt("k", base.Len)), eq(sel(arr, "k"), sel(old, c.elemIndex(base.Off, "k"))))+" :pattern ((select "+arr+" k)))"))
 		cur := arr
 		pos := base.Len
 		for _, p := range pieces {
@@ -296,7 +296,7 @@ func (c *Ctx) evalAppend(x *ast.CallExpr, s *State) Value {
 			case p.sl != nil:
 				src := sel(m, p.sl.Ref)
 				na := c.fresh("apparr", sA1)
-				s.assume(forall([]string{"k"}, "(! "+ite(and(le(pos, "k"), lt("k", add(pos, p.n))), eq(sel(na, "k"), sel(src, add(p.sl.Off, sub("k", pos)))), eq(sel(na, "k"), sel(cur, "k")))+" :pattern ((select "+na+" k)))"))
+				s.assume(forall([]string{"k"}, "(! "+ite(and(le(pos, "k"), lt("k", add(pos, p.n))), eq(sel(na, "k"), sel(src, c.elemIndex(p.sl.Off, sub("k", pos)))), eq(sel(na, "k"), sel(cur, "k")))+" :pattern ((select "+na+" k)))"))
 				cur = na
 			default:
 				na := c.fresh("apparr", sA1)
@@ -340,7 +340,7 @@ func (c *Ctx) evalCopy(x *ast.CallExpr, s *State) Value {
 			srcAt = app("gs.at", asInt(sv), sub("k", dst.Off))
 		} else {
 			src := sv.(SliceV)
-			srcAt = sel(sel(m, src.Ref), add(src.Off, sub("k", dst.Off)))
+			srcAt = sel(sel(m, src.Ref), c.elemIndex(src.Off, sub("k", dst.Off)))
 		}
 		s.assume(forall([]string{"k"}, "(! "+ite(and(le(dst.Off, "k"), lt("k", add(dst.Off, n))), eq(sel(na, "k"), srcAt), eq(sel(na, "k"), sel(old, "k")))+" :pattern ((select "+na+" k)))"))
 		c.heapSet(s, key, sA2, store(m, dst.Ref, na))
@@ -806,16 +806,15 @@ func (c *Ctx) applyContract(x *ast.CallExpr, s *State, k *Contract, sig *types.S
 			for _, m := range k.Modifies {
 				if strings.HasPrefix(m, "contents(") || strings.HasPrefix(m, "object(") {
 					name := m[strings.Index(m, "(")+1 : len(m)-1]
-					if b, ok := env.names[name]; ok {
-						switch u := b.t.Underlying().(type) {
-						case *types.Slice:
-							if !c.freshRefs[b.v.(SliceV).Ref] {
-								c.frameCallee = append(c.frameCallee, memKey(u.Elem()))
-							}
-						case *types.Pointer:
-							if !c.freshRefs[asInt(b.v)] {
-								c.frameCallee = append(c.frameCallee, "F."+typeKey(u.Elem())+".*")
-							}
+					bv, bt := c.modTarget(name, env)
+					switch u := bt.Underlying().(type) {
+					case *types.Slice:
+						if !c.freshRefs[bv.(SliceV).Ref] {
+							c.frameCallee = append(c.frameCallee, memKey(u.Elem()))
+						}
+					case *types.Pointer:
+						if !c.freshRefs[asInt(bv)] {
+							c.frameCallee = append(c.frameCallee, "F."+typeKey(u.Elem())+".*")
 						}
 					}
 					continue
@@ -945,32 +944,40 @@ func (c *Ctx) havocModifies(s *State, mods []string, env *CEnv) {
 		case m == "all":
 			c.havocAll(s)
 		case strings.HasPrefix(m, "contents(") && strings.HasSuffix(m, ")"):
-			name := m[len("contents(") : len(m)-1]
-			b, ok := env.names[name]
-			if !ok {
-				panic("modifies contents(" + name + "): unknown parameter")
-			}
-			st, isSlice := b.t.Underlying().(*types.Slice)
+			v, t := c.modTarget(m[len("contents("):len(m)-1], env)
+			st, isSlice := t.Underlying().(*types.Slice)
 			if !isSlice {
-				panic("modifies contents(" + name + "): not a slice")
+				panic(cerr{"modifies " + m + ": not a slice"})
 			}
-			c.havocSliceContents(s, b.v.(SliceV), st.Elem())
+			c.havocSliceContents(s, v.(SliceV), st.Elem())
 		case strings.HasPrefix(m, "object(") && strings.HasSuffix(m, ")"):
-			name := m[len("object(") : len(m)-1]
-			b, ok := env.names[name]
-			if !ok {
-				panic("modifies object(" + name + "): unknown parameter")
-			}
-			pt, isPtr := b.t.Underlying().(*types.Pointer)
+			v, t := c.modTarget(m[len("object("):len(m)-1], env)
+			pt, isPtr := t.Underlying().(*types.Pointer)
 			if !isPtr {
-				panic("modifies object(" + name + "): not a pointer")
+				panic(cerr{"modifies " + m + ": not a pointer"})
 			}
-			c.havocObject(s, asInt(b.v), pt.Elem())
+			c.havocObject(s, asInt(v), pt.Elem())
 		default:
 			// covers keys not touched so far in this function too (they are materialised later under a new epoch)
 			c.pendingHavoc(s, m)
 		}
 	}
+}
+
+// modTarget evaluates the argument of contents(..)/object(..) in the callee's pre-state environment.
+func (c *Ctx) modTarget(text string, env *CEnv) (Value, types.Type) {
+	if b, ok := env.names[text]; ok {
+		return b.v, b.t
+	}
+	ex, err := parseCExpr(text)
+	if err != nil {
+		panic(cerr{"modifies: cannot parse " + text})
+	}
+	pre := env
+	if env.old != nil {
+		pre = env.withState(env.old)
+	}
+	return pre.eval(ex)
 }
 
 // ---------------------------------------------------------------------------------------------
@@ -998,6 +1005,25 @@ func (c *Ctx) specialCall(x *ast.CallExpr, s *State, callee *types.Func, key str
 		return NoneV{}, true
 	case "binary.bigEndian.AppendUint16", "binary.bigEndian.AppendUint32", "binary.bigEndian.AppendUint64":
 		// not used by the functions under contract
+	case "sync.(*Once).Do":
+		// the function runs iff no earlier Do of this Once has run (ghost flag X.oncedone[once]); A2: Once is atomic
+		if lit, ok := unparen(x.Args[0]).(*ast.FuncLit); ok {
+			once := asInt(recv)
+			m := c.heapGet(s, "X.oncedone", sA1)
+			first := eq(sel(m, once), "0")
+			s.assume(or(first, eq(sel(m, once), "1")))
+			run := s.clone()
+			run.assume(first)
+			c.heapSet(run, "X.oncedone", sA1, store(m, once, "1"))
+			c.frameWrites["X.oncedone"] = true
+			c.inlineLit(lit, nil, run, x)
+			skip := s
+			skip.assume(not(first))
+			merged := c.mergeStates([]*State{run, skip})
+			*s = *merged
+			c.note("sync.Once.Do runs its function at most once (ghost flag per Once)")
+			return NoneV{}, true
+		}
 	case "sync.(*Mutex).Lock", "sync.(*Mutex).Unlock", "sync.(*RWMutex).Lock", "sync.(*RWMutex).Unlock", "sync.(*RWMutex).RLock", "sync.(*RWMutex).RUnlock":
 		c.eng.onLock(c, s, x, callee.Name(), recv)
 		return NoneV{}, true
@@ -1043,7 +1069,7 @@ func (c *Ctx) specialCall(x *ast.CallExpr, s *State, callee *types.Func, key str
 func (c *Ctx) beRead(s *State, arr, off string, n int) string {
 	var terms []string
 	for i := 0; i < n; i++ {
-		b := sel(arr, add(off, num(int64(i))))
+		b := sel(arr, app("ix", off, num(int64(i))))
 		s.assume(and(le("0", b), le(b, "255")))
 		terms = append(terms, mul(pow2(8*(n-1-i)), b))
 	}
@@ -1063,7 +1089,7 @@ func (c *Ctx) bePut(s *State, sv SliceV, v string, n int) {
 		cell := c.fresh("pb", sInt)
 		s.assume(and(le("0", cell), le(cell, "255")))
 		cells = append(cells, cell)
-		cur = store(cur, add(sv.Off, num(int64(i))), cell)
+		cur = store(cur, app("ix", sv.Off, num(int64(i))), cell)
 	}
 	var terms []string
 	for i := 0; i < n; i++ {
